@@ -5,12 +5,13 @@ import Qfx.Drv.ValMon
 import Qfx.Drv.Sched
 import Qfx.Drv.SchedMon
 import Qfx.Drv.Sess
+import Qfx.Drv.SessMon
 namespace Qfx.Drv
 
 def families : List (String × Family) :=
   [ ("val", valFamily), ("val-mon", valMonFamily)
   , ("sched", schedFamily), ("sched-mon", schedMonFamily)
-  , ("sess", sessFamily)
+  , ("sess", sessFamily), ("sess-mon", sessMonFamily)
   ]
 
 end Qfx.Drv
